@@ -1,5 +1,5 @@
 """Which verification tasks serve which property, and the fixed lists reported in every evidence file."""
-TASK_MODULES = ["pyvc.tasks_layer1", "pyvc.tasks_c07", "pyvc.tasks_c16", "pyvc.tasks_c20", "pyvc.tasks_c13", "pyvc.tasks_c04", "pyvc.tasks_c01", "pyvc.tasks_c19", "pyvc.tasks_l2", "pyvc.tasks_c05", "pyvc.tasks_c13b"]
+TASK_MODULES = ["pyvc.tasks_layer1", "pyvc.tasks_c07", "pyvc.tasks_c16", "pyvc.tasks_c20", "pyvc.tasks_c13", "pyvc.tasks_c04", "pyvc.tasks_c01", "pyvc.tasks_c19", "pyvc.tasks_l2", "pyvc.tasks_c05", "pyvc.tasks_c13b", "pyvc.tasks_ft"]
 
 L1_ALL = ["layer1/Circuit." + m for m in ("type", "is_output", "fanin", "fanout", "nodes", "edges", "connect", "disconnect", "remove",
                                           "set_output", "set_type", "outputs", "inputs", "io", "startpoints", "endpoints", "uid", "add[default]", "add[uid]")]
@@ -13,7 +13,7 @@ PROPERTY_TASKS = {
             "C07/connect", "C07/disconnect", "C07/remove", "C07/set_output", "C07/add[default]", "C07/add[uid]"],
     "C12": ["layer1/Circuit.type", "layer1/Circuit.is_output", "layer1/Circuit.nodes", "layer1/Circuit.edges", "layer1/Circuit.io",
             "layer1/Circuit.fanin", "layer1/Circuit.fanout", "layer1/Circuit.startpoints", "layer1/Circuit.endpoints",
-            "layer1/Circuit.inputs", "layer1/Circuit.outputs", "layer1/Circuit.transitive_fanin", "layer1/Circuit.transitive_fanout", "layer1/Circuit.is_cyclic"],
+            "layer1/Circuit.inputs", "layer1/Circuit.outputs", "layer1/Circuit.filter_type", "layer1/Circuit.transitive_fanin", "layer1/Circuit.transitive_fanout", "layer1/Circuit.is_cyclic"],
     "C01": ["C01/cnf", "C01/add_assumptions", "C01/solve[no assumptions]", "C01/solve[assumptions]"],
     "C04": ["C04/miter[self,default]", "C04/miter[pair,default]", "C04/miter[pair,explicit]", "C04/miter-encoding-lemma"],
     "C13": ["C13/clog2", "C13/half_adder", "C13/half_adder[body == contract]", "C13/full_adder"],
@@ -22,7 +22,7 @@ PROPERTY_TASKS = {
     "C20": ["C20/lint"],
     "C19": ["layer1/Circuit.copy"],
 }
-QUERIES = "type is_output nodes edges io fanin fanout startpoints endpoints inputs outputs".split()
+QUERIES = "type is_output nodes edges io fanin fanout startpoints endpoints inputs outputs filter_type".split()
 DEPENDS_ON = {
     "C01": [("Circuit." + m, "C12") for m in ("type", "fanin", "nodes")],
     "C04": [("Circuit.add", "C07"), ("Circuit.connect", "C07"), ("Circuit.startpoints", "C12"), ("Circuit.endpoints", "C12"),
